@@ -315,6 +315,9 @@ impl Handler for DefaultHandler {}
 pub struct Topology {
     /// USE of a keyspace that is not listed is accepted too (checks that probe name handling only)
     pub any_keyspace_usable: bool,
+    /// system tables are paged the awkward (legal) way: pages shorter than asked for, and every third
+    /// page preceded by an EMPTY page that still carries a paging state
+    pub awkward_system_paging: bool,
     pub keyspaces: Vec<KeyspaceDef>,
     pub cluster_name: String,
     /// nodes visible in system.local / system.peers (indices into `nodes`)
@@ -462,6 +465,7 @@ impl MockCluster {
                 nodes: RwLock::new(Vec::new()),
                 topo: RwLock::new(Topology {
                     any_keyspace_usable: false,
+                    awkward_system_paging: false,
                     keyspaces: spec.keyspaces.clone(),
                     cluster_name: if spec.cluster_name.is_empty() { "mock".into() } else { spec.cluster_name.clone() },
                     members: Vec::new(),
@@ -544,6 +548,9 @@ impl MockCluster {
 
     pub fn set_members(&self, members: Vec<usize>) {
         self.inner.topo.write().unwrap().members = members;
+    }
+    pub fn awkward_system_paging(&self) {
+        self.inner.topo.write().unwrap().awkward_system_paging = true;
     }
     pub fn allow_any_keyspace(&self) {
         self.inner.topo.write().unwrap().any_keyspace_usable = true;
@@ -1252,8 +1259,21 @@ fn answer_system(rq: &Rq, def: &StatementDef, page_size: Option<i32>, paging_sta
     match system_rows(&rq.cluster, &rq.node, &def.query) {
         Err(e) => rq.error(e),
         Ok(all) => {
-            let start = paging_state.filter(|p| p.len() == 4).map(|p| u32::from_be_bytes([p[0], p[1], p[2], p[3]]) as usize).unwrap_or(0).min(all.len());
-            let n = page_size.filter(|p| *p > 0).map(|p| p as usize).unwrap_or(usize::MAX);
+            let start = paging_state.filter(|p| p.len() >= 4).map(|p| u32::from_be_bytes([p[0], p[1], p[2], p[3]]) as usize).unwrap_or(0).min(all.len());
+            let mut n = page_size.filter(|p| *p > 0).map(|p| p as usize).unwrap_or(usize::MAX);
+            if rq.cluster.topo.read().unwrap().awkward_system_paging && n != usize::MAX {
+                // a 5-byte state marks "the empty page in front of this offset has been served"
+                let after_empty = paging_state.map(|p| p.len() == 5).unwrap_or(false);
+                let page_no = start / n.max(1);
+                if !after_empty && start < all.len() && page_no % 3 != 1 {
+                    let mut st = (start as u32).to_be_bytes().to_vec();
+                    st.push(1);
+                    rq.rows_for(def, vec![], Some(st));
+                    return;
+                }
+                // fewer rows than asked for
+                n = (n - n / 3).max(1);
+            }
             let end = start.saturating_add(n).min(all.len());
             let next = if end < all.len() { Some((end as u32).to_be_bytes().to_vec()) } else { None };
             rq.rows_for(def, all[start..end].to_vec(), next);
